@@ -498,6 +498,78 @@ def _defaults(init: FuncInfo):
     return d
 
 
+LAYOUT_ATTRS = {"strides", "data", "flags", "itemsize", "nbytes", "base", "ctypes"}
+ZERO_NORMALISERS = {"np.abs", "np.absolute", "np.where", "np.square", "abs"}
+
+
+def rule_r5(rep, program: Program):
+    """Equality of array parameters is np.array_equal: it ignores dtype, memory layout and the sign
+    of zeros.  hash_array must therefore hash a canonical form of the *values*: every aspect of the
+    array it feeds to the hash must be one that equal arrays share."""
+    r = rep.rule("R5", "hash_array hashes only what np.array_equal compares: bytes of a canonical (fixed dtype, C-contiguous, zero-sign-free) copy, plus at most the shape", floor=3)
+    f = program.func("utils", "hash_array")
+    if f is None:
+        raise AnalysisError("utils.hash_array not found")
+    prm = f.params[0]
+    # how do the matrix classes compare array parameters?
+    eq_calls = set()
+    for g in matrix_functions(program):
+        if g.name == "_check_equality":
+            for c in ast.walk(g.node):
+                if isinstance(c, ast.Call) and call_name(c).startswith("np.") and ("equal" in call_name(c) or "close" in call_name(c)):
+                    eq_calls.add(call_name(c))
+    r.inst({"array equality used by _check_equality": sorted(eq_calls)})
+    if not eq_calls <= {"np.array_equal"}:
+        raise AnalysisError(f"array parameters compared with {sorted(eq_calls)}: the hash rule assumes np.array_equal")
+    # canonical locals: derived from the parameter through a dtype-fixing contiguous copy
+    canon = {}
+    for st in f.body_without_docstring():
+        if isinstance(st, ast.Assign) and len(st.targets) == 1 and isinstance(st.targets[0], ast.Name):
+            v = st.value
+            fixes_dtype = contiguous = zero = False
+            for n in ast.walk(v):
+                if isinstance(n, ast.Call):
+                    cn = call_name(n)
+                    has_dtype = len(n.args) >= 2 or any(k.arg == "dtype" for k in n.keywords)
+                    if cn in ("np.ascontiguousarray", "np.array", "np.asarray", "np.require") and n.args and norm(n.args[0]) == prm and has_dtype:
+                        fixes_dtype = True
+                        contiguous = contiguous or cn in ("np.ascontiguousarray", "np.array")
+                    if isinstance(n.func, ast.Attribute) and n.func.attr == "astype" and norm(n.func.value) == prm:
+                        fixes_dtype = contiguous = True
+                    if cn in ZERO_NORMALISERS:
+                        zero = True
+                if isinstance(n, ast.BinOp) and isinstance(n.op, ast.Add) and any(isinstance(x, ast.Constant) and x.value == 0 for x in (n.left, n.right)):
+                    zero = contiguous = True  # arithmetic allocates a fresh C-contiguous result
+                if isinstance(n, ast.BinOp) and isinstance(n.op, ast.Pow):
+                    zero = contiguous = True
+            if any(isinstance(n, ast.Name) and n.id == prm for n in ast.walk(v)):
+                canon[st.targets[0].id] = {"dtype": fixes_dtype, "contiguous": contiguous, "zero": zero}
+    r.inst({"canonical forms": canon})
+    full = {n for n, c in canon.items() if all(c.values())}
+    # every read of the raw parameter outside the canonicalisation, and every aspect fed to the hash
+    for n in ast.walk(f.node):
+        if isinstance(n, ast.Attribute) and isinstance(n.value, ast.Name) and n.value.id == prm:
+            inside_canon = any(isinstance(st, ast.Assign) and len(st.targets) == 1 and isinstance(st.targets[0], ast.Name) and st.targets[0].id in canon and any(x is n for x in ast.walk(st)) for st in f.body_without_docstring())
+            if n.attr in LAYOUT_ATTRS or n.attr in ("dtype", "tobytes", "view", "tostring", "dumps", "byteswap") and not inside_canon:
+                what = "memory layout" if n.attr in LAYOUT_ATTRS else "data type / raw bytes"
+                r.violate(PROP, f"hash_array:raw:{n.attr}", f"hash_array reads `{prm}.{n.attr}` of the array as given: the hash depends on its {what}, which np.array_equal (the matrices' equality) ignores - equal matrices hash differently (and a byte view of a non-C-contiguous array raises)", node=n, file=f.file)
+        if isinstance(n, ast.Call) and call_name(n) in ("bytes", "memoryview", "id", "hash") and n.args and norm(n.args[0]) == prm:
+            r.violate(PROP, f"hash_array:raw:{call_name(n)}", f"hash_array applies {call_name(n)}() to the array as given (layout / dtype / identity dependent)", node=n, file=f.file)
+    used = {n.value.id for n in ast.walk(f.node) if isinstance(n, ast.Attribute) and isinstance(n.value, ast.Name) and n.value.id in canon and n.attr in ("tobytes", "view", "data")}
+    r.inst({"forms whose bytes are hashed": sorted(used)})
+    for name in sorted(used - full):
+        missing = [k for k, v in canon[name].items() if not v]
+        r.violate(PROP, f"hash_array:canonical:{name}:missing:{','.join(missing)}", f"the bytes hashed come from `{name}`, which does not fix {missing} (dtype: equal int / float arrays; contiguous: equal arrays in C / Fortran order; zero: 0.0 == -0.0 have different bytes): arrays that compare equal hash differently", node=f.node, file=f.file)
+    if not used and not r.findings:
+        raise AnalysisError("hash_array: no hashed byte source recognised")
+    for n in ast.walk(f.node):
+        if isinstance(n, ast.Attribute) and isinstance(n.value, ast.Name) and n.value.id in canon and n.attr in ("strides", "dtype") and not any(isinstance(c, ast.Call) and call_name(c) in ("np.result_type",) and any(x is n for x in ast.walk(c)) for c in ast.walk(f.node)):
+            # strides of the canonical copy are a function of its shape; its dtype of the input dtype
+            if n.attr == "dtype" and not canon[n.value.id]["dtype"]:
+                r.violate(PROP, f"hash_array:{n.value.id}.dtype", "the dtype of a copy that keeps the input dtype is fed to the hash", node=n, file=f.file)
+    return r
+
+
 def run(rep, program: Program, tier: str) -> None:
     rep.explanation = (
         "Effect analysis of matrices.py (attribute stores outside constructors must be guarded lazy "
@@ -512,6 +584,7 @@ def run(rep, program: Program, tier: str) -> None:
     ]
     rep.isolate(rule_r1, rep, program)
     rep.isolate(rule_r2_r3, rep, program)
+    rep.isolate(rule_r5, rep, program)
     # no class customises copying/pickling
     r = rep.rule("R4", "no matrix class overrides __copy__/__deepcopy__/__reduce__/__getstate__ (default protocols preserve exactly the attributes equality compares)", floor=30)
     for k in program.subclasses("Matrix"):
